@@ -125,6 +125,35 @@ pub mod bp {
     pub use crate::trees::*;
 }
 
+/// Verification hooks: direct entry points to private bit kernels.
+///
+/// Compiled only under `--cfg succinctly_verif` (never by a normal build);
+/// not part of the public API and carries no stability guarantee.
+#[cfg(succinctly_verif)]
+#[doc(hidden)]
+pub mod verif_hooks {
+    pub use crate::util::broadword::verif_select_in_word_broadword as select_in_word_broadword;
+    pub use crate::util::broadword::verif_select_in_word_ctz as select_in_word_ctz;
+    pub use crate::util::table::select_in_byte;
+
+    #[cfg(all(target_arch = "x86_64", any(feature = "std", test)))]
+    pub use crate::bits::verif_block_popcount_avx2 as block_popcount_avx2;
+    #[cfg(all(target_arch = "x86_64", any(feature = "std", test)))]
+    pub use crate::util::simd::x86::verif_select_in_word_pdep as select_in_word_pdep;
+
+    /// No PDEP path on this target/configuration.
+    #[cfg(not(all(target_arch = "x86_64", any(feature = "std", test))))]
+    pub fn select_in_word_pdep(_x: u64, _k: u32) -> Option<u32> {
+        None
+    }
+
+    /// No AVX2 path on this target/configuration.
+    #[cfg(not(all(target_arch = "x86_64", any(feature = "std", test))))]
+    pub fn block_popcount_avx2(_block: &[u64]) -> Option<usize> {
+        None
+    }
+}
+
 // =============================================================================
 // Core traits
 // =============================================================================
